@@ -149,6 +149,12 @@ func mapRangeInsensitive(info *types.Info, b *Body, rs *ast.RangeStmt) (string, 
 	usesIter := func(n ast.Node) bool {
 		return (k != nil && usesVar(info, n, k)) || (v != nil && usesVar(info, n, v))
 	}
+	// an all / any reduction through a flag: `if flag = p(entry); !flag { break }` (or `flag = p(entry)` followed by
+	// `if !flag { break }`; for "any" the break is under flag): when the loop ends the flag is false (true) exactly when
+	// some entry made it so, whatever the order of the visits
+	if flagReduction(info, rs) {
+		return "all/any reduction through a flag", true
+	}
 	var appendedTo []types.Object
 	reason := ""
 	var walk func(list []ast.Stmt) bool
@@ -623,4 +629,41 @@ func onlyLenUses(info *types.Info, n ast.Node, o types.Object) bool {
 		return true
 	})
 	return ok
+}
+
+
+// flagReduction recognises the body `flag = p(…); if [!]flag { break }` (the assignment may be the if's init statement).
+func flagReduction(info *types.Info, rs *ast.RangeStmt) bool {
+	var as *ast.AssignStmt
+	var ifs *ast.IfStmt
+	switch len(rs.Body.List) {
+	case 1:
+		ifs, _ = rs.Body.List[0].(*ast.IfStmt)
+		if ifs != nil {
+			as, _ = ifs.Init.(*ast.AssignStmt)
+		}
+	case 2:
+		as, _ = rs.Body.List[0].(*ast.AssignStmt)
+		ifs, _ = rs.Body.List[1].(*ast.IfStmt)
+		if ifs != nil && ifs.Init != nil {
+			return false
+		}
+	}
+	if as == nil || ifs == nil || ifs.Else != nil || as.Tok != token.ASSIGN || len(as.Lhs) != 1 || len(as.Rhs) != 1 || len(ifs.Body.List) != 1 {
+		return false
+	}
+	fid, ok := as.Lhs[0].(*ast.Ident)
+	if !ok {
+		return false
+	}
+	if _, isCall := ast.Unparen(as.Rhs[0]).(*ast.CallExpr); !isCall {
+		return false
+	}
+	br, ok := ifs.Body.List[0].(*ast.BranchStmt)
+	if !ok || br.Tok != token.BREAK || br.Label != nil {
+		return false
+	}
+	c, _ := stripNot(ifs.Cond)
+	cid, ok := c.(*ast.Ident)
+	return ok && info.Uses[cid] != nil && info.Uses[cid] == info.Uses[fid]
 }
